@@ -470,6 +470,7 @@ def run_api_case(case, drv):
             if w in t.upper().replace(")X", ")x"):
                 tags.append("layout:rv-" + w.strip(")"))
     m = m0
+    history = []
     _LOG = []
     applied = []
     failed = None
@@ -489,6 +490,7 @@ def run_api_case(case, drv):
             m = m2
             applied.append(ed)
             tags.append("edit:" + ed[0])
+            history.append([(p.name, float(p.init), float(p.lower), float(p.upper), bool(p.fix)) for p in theta_params(m)])
     finally:
         log, _LOG = _LOG, None
     # ---- K: replay every recorded ThetaRecord.update/remove call on the Lean model; record-level monitors on it
@@ -599,7 +601,18 @@ def run_api_case(case, drv):
                     "what": f"after {applied}: a parameter named by the default scheme keeps its old number in memory but is read back "
                             f"under the name of its new position: thetas {[t[0] for t in s1['thetas']]} vs {[t[0] for t in s2['thetas']]}, "
                             f"rv parameters {sorted(s1['omegas'])} vs {sorted(s2['omegas'])}"})
+    misplaced = has_misplaced_default_name(dict(s1, thetas=[]))
     s1, s2 = positional(s1), positional(s2)
+    # random-variable part alone: equal once names are erased, and the in-memory model has default-form names at other
+    # positions (they also collide with the reader's own default names: OMEGA_2_2 -> OMEGA_2_2_)
+    rv1 = {kk: s1[kk] for kk in ("etas", "epsilons", "omegas")}
+    rv2 = {kk: s2[kk] for kk in ("etas", "epsilons", "omegas")}
+    if rv1 != rv2 and misplaced:
+        n1, n2 = nameless(dict(s1, thetas=[])), nameless(dict(s2, thetas=[]))
+        if n1 == n2:
+            mon.append({"cls": "default-parameter-name-renumbered",
+                        "what": f"after {applied}: rv parameters with default-form names at other positions: {sorted(s1['omegas'])} vs {sorted(s2['omegas'])}"})
+            s2 = dict(s2, etas=s1["etas"], epsilons=s1["epsilons"], omegas=s1["omegas"])
     if domain and s1["thetas"] != s2["thetas"]:
         cls = classify_api(ctx, s1, s2, "thetas", None)
         mon.append({"cls": cls, "what": f"after {applied}: in-memory thetas {s1['thetas']} but code reads back {s2['thetas']}: " + _excerpt(code1)})
@@ -613,7 +626,9 @@ def run_api_case(case, drv):
                 if s1["omegas"].get(n) != s2["omegas"].get(n)}
         mon.append({"cls": cls, "what": f"after {applied}: omega/sigma parameters differ (memory, re-read) {diff}: " + _excerpt(code1)})
     # ---- spelling of unchanged thetas (positions are comparable when no theta was added or removed)
-    if not ({"addtheta", "rmtheta"} & set(ops)) and len(s0["thetas"]) == len(s1["thetas"]):
+    theta_failed = any(c["cls"].startswith("theta-") or c["cls"].startswith("api-theta") or c["cls"].startswith("api-code") for c in mon
+                       if c["cls"] not in ("theta-unchanged-bound-respelled", "theta-unchanged-init-respelled", "theta-frame"))
+    if not theta_failed and not ({"addtheta", "rmtheta"} & set(ops)) and len(s0["thetas"]) == len(s1["thetas"]):
         try:
             items1 = theta_item_table(code1)
         except Exception:
@@ -626,8 +641,10 @@ def run_api_case(case, drv):
                     break
                 o, nw = s0["thetas"][pos:pos + n], s1["thetas"][pos:pos + n]
                 pos += n
-                if [t[1:] for t in o] == [t[1:] for t in nw] and f0["text"] != f1["text"]:
-                    only_bounds = f0["init"] == f1["init"] and f0["fix"] == f1["fix"]
+                never_changed = all([t[1:] for t in h[pos - n:pos]] == [t[1:] for t in o] for h in history)
+                if never_changed and [t[1:] for t in o] == [t[1:] for t in nw] and \
+                        (f0["init"], f0["low"], f0["up"]) != (f1["init"], f1["low"], f1["up"]):
+                    only_bounds = f0["init"] == f1["init"]
                     mon.append({"cls": "theta-unchanged-bound-respelled" if only_bounds else "theta-frame",
                                 "what": f"after {applied}: theta item {f0['text']!r} became {f1['text']!r} although its parameter did not change"})
     return {"k": k, "mon": mon, "tags": tags, "nontrivial": True}
